@@ -5,6 +5,8 @@ What is extracted (the hand model `Context/Model.lean` is *defined in terms of* 
   bindOperands   operand order of the dict display in Logger.bind
   ctxOperands    operand order of the dict display in Logger.contextualize
   patchOperands  operand order of the list display in Logger.patch
+  kwargsShadow   for bind / contextualize / the logging methods: the keyword names their own named parameters
+                 (after name mangling) take away from **kwargs, i.e. keys that cannot reach `extra` that way
   patchDedup     whether Logger.patch skips a patcher that is already (==) in the list
   logPhases      relative order of `core.patcher(...)`, `for patcher in patchers`, `for handler in ...emit`
   resetOn        the ways of leaving a contextualize block (normal / Exception / BaseException) that run
@@ -30,13 +32,18 @@ What is only checked for shape (fail closed, nothing generated from it):
 """
 import ast
 
-from extract_lib import Unsupported, emit, find_class, find_func, parse_module
+from extract_lib import Unsupported, emit, find_class, find_func, lean_chars, parse_module
 
 OPTION_NAMES = ["exception", "depth", "record", "lazy", "colors", "raw", "capture", "patchers", "extra"]
 
 
 def _u(node):
     return ast.unparse(node)
+
+
+def _receiver(fn):
+    """name of the first parameter (positional-only or not)"""
+    return (fn.args.posonlyargs + fn.args.args)[0].arg
 
 
 def _strip_doc(body):
@@ -174,7 +181,7 @@ def generate():
 
         # ---------------------------------------------------------------- bind
         bind = find_func(cls, "bind")
-        me = bind.args.args[0].arg
+        me = _receiver(bind)
         asg, call = _single_return_logger(_strip_doc(bind.body), "bind", me)
         if _u(asg) != "*options, extra = %s._options" % me:
             raise Unsupported("bind unpacking: " + _u(asg))
@@ -192,7 +199,7 @@ def generate():
 
         # ---------------------------------------------------------------- patch
         patch = find_func(cls, "patch")
-        me = patch.args.args[0].arg
+        me = _receiver(patch)
         pbody = _strip_doc(patch.body)
         dedup = False
         if len(pbody) == 3 and isinstance(pbody[1], ast.If):
@@ -225,14 +232,14 @@ def generate():
 
         # ---------------------------------------------------------------- opt
         opt = find_func(cls, "opt")
-        me = opt.args.args[0].arg
+        me = _receiver(opt)
         asg, call = _single_return_logger(_strip_doc(opt.body), "opt", me)
         if _u(asg) != "args = %s._options[-2:]" % me:
             raise Unsupported("opt unpacking: " + _u(asg))
         if [_u(a) for a in call.args[1:]] != OPTION_NAMES[:7] + ["*args"]:
             raise Unsupported("opt: Logger arguments " + _u(call))
         _no_mutation(opt, {"args"}, "opt")
-        if opt.args.args[1:] or opt.args.vararg or opt.args.kwarg:
+        if (opt.args.posonlyargs + opt.args.args)[1:] or opt.args.vararg or opt.args.kwarg:
             raise Unsupported("opt takes positional parameters")
         defaults = {}
         for a, d in zip(opt.args.kwonlyargs, opt.args.kw_defaults):
@@ -274,10 +281,10 @@ def generate():
 
         # ---------------------------------------------------------------- contextualize
         cz = find_func(cls, "contextualize")
-        me = cz.args.args[0].arg
+        me = _receiver(cz)
         if [_u(d) for d in cz.decorator_list] != ["contextlib.contextmanager"]:
             raise Unsupported("contextualize decorators: %r" % [_u(d) for d in cz.decorator_list])
-        if cz.args.kwarg is None or cz.args.kwarg.arg != "kwargs" or len(cz.args.args) != 1:
+        if cz.args.kwarg is None or cz.args.kwarg.arg != "kwargs" or len(cz.args.posonlyargs + cz.args.args) != 1:
             raise Unsupported("contextualize signature")
         lockname = "%s._core.lock" % me
 
@@ -413,6 +420,25 @@ def generate():
         body += "/-- `_log`: \"extra\": %s -/\ndef recordLayers : List Layer := %s\n\n" % (
             _u(extra_val), _lean_list([ltable[o] for o in lops]))
         body += "/-- `_log`: order of the trailing statements -/\ndef logPhases : List Phase := %s\n\n" % _lean_list(phases)
+
+        # ---------------------------------------------------------------- **kwargs signatures
+        # every public method that forwards **kwargs into `extra`: which keyword names do its OWN named
+        # parameters take away from **kwargs?  (names are mangled the way the compiler does inside
+        # `class Logger`; positional-only parameters cannot be passed by keyword and take none)
+        def mangle(n):
+            return "_Logger" + n if n.startswith("__") and not n.endswith("__") else n
+        kw_methods = ["bind", "contextualize", "trace", "debug", "info", "success", "warning", "error", "critical",
+                      "exception", "log"]
+        rows = []
+        for name in kw_methods:
+            fn = find_func(cls, name)
+            if fn.args.kwarg is None:
+                raise Unsupported("%s no longer takes **kwargs" % name)
+            named = [mangle(a.arg) for a in fn.args.args + fn.args.kwonlyargs]
+            rows.append("(%s, [%s])" % (lean_chars(name), ", ".join(lean_chars(n) for n in named)))
+        body += ("/-- methods forwarding `**kwargs` into `extra`, each with the keyword names its own named\n"
+                 "parameters shadow (after name mangling; positional-only parameters shadow nothing) -/\n"
+                 "def kwargsShadow : List (List Char × List (List Char)) := [\n  %s]\n\n" % ",\n  ".join(rows))
 
         # ---------------------------------------------------------------- configure
         cf = find_func(cls, "configure")
